@@ -385,6 +385,8 @@ def run(ctx):
               for i in range(common.NCPU)]
     results = common.run_shards('checks.c15', shards, timeout=3400)
     common.merge_shards(ctx, results)
+    from checks import c15_real
+    c15_real.run(ctx)
     from vlib import dd
     ns = dd.load()
     silent = [c for c in dd.all_mutator_classes(ns)
@@ -397,7 +399,9 @@ def run(ctx):
         'and up to N partially reduced forms each; every proposal (at most '
         f'{MAX_PER_NODE} per mutator, kind and node) of all 53 mutator '
         'classes at every BFS node; evaluations = proposals judged; distinct '
-        'non-trivial = distinct start scripts')
+        'non-trivial = distinct start scripts; plus real hierarchical runs '
+        'in which every candidate passes through the same closure / '
+        're-declaration oracle')
     ctx.assumptions = [
         'exceptions while *proposing* are informational (C04 allows a '
         'mutator to fail)', 'vlib.refreader is the token oracle'
